@@ -7,6 +7,7 @@ CONSTANTS
   AllowCrash = FALSE
   MaxFaults = 2
   NoFile = NoFile
+  IsEmptyData <- MCIsEmpty
 SPECIFICATION Spec
 INVARIANTS ContentAtomic Resolvable Truthful TmpPrivate
 CHECK_DEADLOCK FALSE
